@@ -67,6 +67,7 @@ ASSUMPTIONS = [
     "disk (open/write/copy2/TemporaryDirectory) and latexmk are in-memory stubs; nothing is claimed about real LaTeX runs",
     "the reference replays the clock readings its slot saw, so the clock is a controlled input",
     "an export hit by an injected fault is not judged; histories and specs are sampled",
+    "options written into a live timeline's options dict (only keys that are read at export time) belong to that timeline's options; the reference constructs, applies the same writes, then exports",
 ]
 
 COMPONENTS = {
